@@ -133,6 +133,9 @@ func (in *Interp) yield(vals []Value) []Value {
 		in.libError("attempt to yield from outside a coroutine")
 	}
 	in.feat("yield")
+	if co.prot > 0 {
+		in.feat("yield-inside-protected-call")
+	}
 	co.fromCo <- coMsg{kind: msgValues, vals: vals}
 	msg := <-co.toCo
 	switch msg.kind {
